@@ -128,6 +128,12 @@ class PlannedFalsyNeedsArg(Planned):
         return 0
 
 
+class PlannedAbort(BaseException):
+    """A planned failure of user code that is NOT an Exception (an abort, a shutdown request raised in it).  Not part of
+    ``PLANNED``: checks that plan it add it to their own table and catch ``PLANNED_ANY``."""
+
+
+PLANNED_ANY = (Planned, PlannedAbort)
 PLANNED["Falsy"] = PlannedFalsy
 PLANNED["FalsyNeedsArg"] = PlannedFalsyNeedsArg
 PLANNED_NAMES = list(PLANNED)
@@ -755,8 +761,32 @@ class ListSub(list):
     """A list subclass."""
 
 
+class JobItem(Item):
+    """An item that happens to be awaitable (a job the OWNER of the stream will run when it sees fit): payload.  Being
+    awaited by anything but the test itself is reported as a foreign action."""
+
+    __slots__ = ()
+
+    def __await__(self) -> Any:
+        CTX.foreign.append(f"the library awaited the item {self!r} of a stream")
+        return ("what running the job gives", self.uid)
+        yield  # pragma: no cover
+
+
+class NotIterable:
+    """An argument that supports no iteration protocol at all (a number, a record handed over by mistake)."""
+
+    def __init__(self, st: SrcState):
+        self.st = st
+
+    def __repr__(self) -> str:
+        return f"<not iterable {self.st.sid}>"
+
+
 def make_source(st: SrcState, flavour: str) -> Any:
     """Build the object handed to the library for ``st`` in the given flavour."""
+    if flavour == "not_iterable":
+        return NotIterable(st)
     if flavour == "tuple_sub":
         return TupleSub(st.items)
     if flavour == "list_sub":
